@@ -306,7 +306,7 @@ def run (ctx):
   hs2 = [h_ for h_ in g.nodes if h_.kind == 'handler' and h_.ast.type is not None and 'error' in norm(h_.ast.type)]
   ctx.floor('send_fast: handler of the direct write / queueing call', min(len(hs2), len(qn2)), 1)
   res2 = []
-  for p_, e_ in q.paths_under(repo, iom, g, q.Env(dict(base), [(is_ne2, False), (is_eq2, True)]), g.entry, [g.exit], riw, limit=300, exc=True):
+  for p_, e_ in q.paths_under(repo, iom, g, q.Env(dict(base, **{pn_: b'wxyz' for pn_ in [a_.arg for a_ in sfast.node.args.args[1:2]]}), [(is_ne2, False), (is_eq2, True)]), g.entry, [g.exit], riw, limit=300, exc=True):
     if not any(h_ in p_ for h_ in hs2): continue
     res2.append((any(n_ in qn2 for n_ in p_), any(any(call_name(c_) == 'close' for c_ in q.node_calls(n_)) for n_ in p_), p_))
   if not res2:
